@@ -107,8 +107,9 @@ pub fn request_spaces(_tier: Tier) -> Vec<CallSpace> {
             let mut ix = Ix(k);
             let ty = [0x00u8, 0x01, 0x02, 0x03, 0xF3][ix.take(5) as usize];
             let size = [0x00u8, 0x01, 0x04][ix.take(3) as usize];
-            let first = [0x10u8, 0x11, 0x14, 0x15][ix.take(4) as usize];
-            let addr = [0x40u8, 0x41][ix.take(2) as usize];
+            // 0x42 is the EID stored in one of the encoder contexts, 0x23 the context's own address
+            let first = [0x10u8, 0x11, 0x14, 0x42][ix.take(4) as usize];
+            let addr = [0x40u8, 0x23][ix.take(2) as usize];
             [ty, size, first, addr]
         }
         const NS: u64 = 5 * 3 * 4 * 2;
